@@ -19,12 +19,15 @@ RULE = (
     "exact: every basis polynomial s^k, P_k(s), t^k, k = 0..2n-1, n <= 30, x interval, plus "
     "fixed/seed coefficient vectors of degree 2n-1; non-trivial = degree >= n (beyond what any "
     "n-point interpolatory rule does).  integrate: full product entry point {QGauss(n).integrate, "
-    "QGauss().integrate(npts=n), qgauss, integrate_func/integrate_data} x npts alphabet x "
-    "{integrand x interval x container | table}; non-trivial = everything except the constant "
-    "integrand.  qgauss2: all (nx,ny) x integrand x range pair; non-trivial = nx != ny or "
-    "x-range != y-range.  histories: BFS over all sequences of integrate calls (function on two "
-    "intervals, two tables; npts in {None,2,5,9,seed}) on one QGauss(None|5), every history "
-    "compared bit-for-bit with a fresh object and with the reference rule."
+    "QGauss().integrate(npts=n), qgauss (after a qgauss call with another point count), "
+    "integrate_func/integrate_data} x npts alphabet x {integrand x interval x container | table}; "
+    "non-trivial = everything except the constant integrand.  qgauss2: all (nx,ny) x integrand x "
+    "range pair x container, each followed by a call on another range and a bit-identical repeat; "
+    "non-trivial = nx != ny or x-range != y-range.  histories: BFS over ALL sequences (no merging "
+    "below the depth bound) of integrate calls (two functions and a bound method on three intervals, "
+    "one of them reversed; two tables; npts in {None,2,5,9,seed}) on one QGauss(None|5); every call "
+    "of every history is compared bit-for-bit with the same call on a fresh object built with the "
+    "effective point count, and with the reference rule."
 )
 ASSUMPTIONS = [
     "reference rule: numpy.polynomial.legendre.leggauss (Golub-Welsch eigenvalues) polished by Newton steps "
@@ -42,7 +45,8 @@ ASSUMPTIONS = [
     "from it: offset tiny intervals are enumerated for n <= 20 only",
     "a QGauss object that never received a point count must raise ValueError from integrate (the code's "
     "documented behaviour; the statement is silent) and stay unchanged",
-    "tabulated data: numpy arrays with strictly ascending x (what interplin/searchsorted require); "
+    "tabulated data: numpy arrays with strictly ascending x (what interplin/searchsorted require); the float32 "
+    "table has dyadic values so that its differences are exact in float32; "
     "integrands passed to integrate() are python functions or bound methods (the dispatch is on FunctionType/MethodType)",
     "lattice statement only: holds on every listed (n, interval, integrand) point, not for all reals",
 ]
@@ -462,18 +466,18 @@ def main(ctx):
         try:
             got = run_entry(entry, n, xarg, yarg, kind == "func")
         except Exception as e:
-            return rec.fail(case, "integrator entry %s raised %s: %s" % (entry, type(e).__name__, e))
+            return rec.fail(case, "integrator raised (entry %s) %s: %s" % (entry, type(e).__name__, e))
         try:
             gotf = float(got)
         except Exception:
-            return rec.fail(case, "integrator entry %s returned a non-scalar: %r" % (entry, got))
+            return rec.fail(case, "integrator returned a non-scalar (entry %s): %r" % (entry, got))
         if not math.isfinite(gotf):
-            return rec.fail(case, "integrator entry %s, %s: result is not finite: %r" % (entry, kind, gotf))
+            return rec.fail(case, "integrator result is not finite (entry %s, %s: %r)" % (entry, kind, gotf))
         if not abs(gotf - exp) <= tol:
-            return rec.fail(case, "integrator entry %s, %s: result %r differs from the weighted sum over the "
-                            "reference rule %r (tolerance %r)" % (entry, kind, gotf, exp, tol))
+            return rec.fail(case, "integrator result differs from the weighted sum over the reference rule "
+                            "(entry %s, %s): got %r, expected %r, tolerance %r" % (entry, kind, gotf, exp, tol))
         if kind == "data" and not (np.array_equal(xarg, keep[0]) and np.array_equal(yarg, keep[1])):
-            return rec.fail(case, "integrator entry %s modified the caller's table" % entry)
+            return rec.fail(case, "integrator modified the caller's table (entry %s)" % entry)
         rec.ok(case, outcome=oc + ("/n=1" if n == 1 else ""), nontrivial=nontriv,
                calls=2 if entry == "qgauss" else 1)
 
@@ -528,7 +532,7 @@ def main(ctx):
         except Exception:
             return rec.fail(case, "QGauss2 returned a non-scalar: %r" % (got,))
         if not math.isfinite(gotf):
-            return rec.fail(case, "QGauss2 result is not finite: %r" % gotf)
+            return rec.fail(case, "QGauss2 result is not finite (%r)" % gotf)
         if not abs(gotf - exp) <= 1e-9 * area * vmax:
             return rec.fail(case, "QGauss2 result %r differs from the tensor-product sum %r (tolerance %r)"
                             % (gotf, exp, 1e-9 * area * vmax))
